@@ -8,6 +8,7 @@ import (
 	"regexp"
 	"strings"
 	"sync"
+	"sync/atomic"
 	"time"
 
 	"github.com/scrapli/scrapligo/channel"
@@ -189,6 +190,7 @@ type faultRun struct {
 	w0       int // number of writes before the first operation
 	w1       int // ... and after it
 	crashed  string
+	hang     bool
 	cbFired  int // callbacks that had run when the first operation returned
 	closed   bool
 	cached   string
@@ -199,6 +201,8 @@ const faultConnTimeout = 60 * time.Millisecond
 const faultOpTimeout = 35 * time.Millisecond
 
 // execFault runs the case; fault == false is the dry run.
+var faultHangs atomic.Int64
+
 func execFault(c *faultCase, fault bool, k int) *faultRun {
 	fr := &faultRun{}
 	rx := map[string]string{}
@@ -389,7 +393,33 @@ func execFault(c *faultCase, fault bool, k int) *faultRun {
 	}
 	tr.Mark('C')
 	t0 := time.Now()
-	res, err := first()
+	// the operation runs under a watchdog: one that never returns is a failing input (the property
+	// is "returns within its timeout"), not a stuck harness
+	type opRes struct {
+		res string
+		err error
+	}
+	limit := 8 * time.Second
+	if faultHangs.Load() >= 6 {
+		limit = connTimeout + 1500*time.Millisecond // the defect is established: further replays need not wait long
+	}
+	och := make(chan opRes, 1)
+	go func() {
+		r, e := first()
+		och <- opRes{r, e}
+	}()
+	var res string
+	var err error
+	select {
+	case x := <-och:
+		res, err = x.res, x.err
+	case <-time.After(limit):
+		faultHangs.Add(1)
+		fr.hang = true
+		fr.crashed = fmt.Sprintf("the operation had not returned %v after it started (timeout in force: %v)", limit, connTimeout)
+		go func() { _ = closer() }()
+		return fr
+	}
 	fr.elapsed = time.Since(t0)
 	timedOut := err != nil && (errClass(err) == "timeout" || (errClass(err) == "privilege" && fr.elapsed >= connTimeout*9/10))
 	if timedOut {
@@ -513,6 +543,9 @@ func runFaultCase(id string, c *faultCase) {
 	if fr.crashed != "" {
 		cs.Oracle = fr.crashed
 		cs.Sig = c.Prop + ":crash"
+		if fr.hang {
+			cs.Sig = c.Prop + ":hang"
+		}
 		emit(cs)
 		return
 	}
